@@ -438,6 +438,38 @@ pub fn drive_c08(a: &Args) {
             }
         }
     }
+    // two consecutive escape attempts: a malformed one (with digits already read) followed by a
+    // well-formed one -- whatever the first left behind must not leak into the second
+    let firsts: Vec<Vec<u32>> = {
+        let mut f = vec![];
+        for ds in all_strings(&[50, 67, 70], 3) {
+            let mut x = vec![92, 117];
+            x.extend(ds.iter());
+            f.push(x.clone());
+            let mut y = vec![92, 117, 123];
+            y.extend(ds.iter());
+            f.push(y);
+        }
+        f.push(vec![92, 117, 123, 51, 102, 102, 102, 102, 125]); // \u{3ffff} : out of range
+        f
+    };
+    let seconds: Vec<Vec<u32>> = vec![
+        vec![92, 117, 48, 48, 52, 49],
+        vec![92, 117, 123, 52, 49, 125],
+        vec![92, 117, 123, 50, 70, 70, 70, 70, 125],
+        vec![92, 117, 70, 70, 70, 70],
+        vec![92, 117, 123, 48, 125],
+    ];
+    for (k, f) in firsts.iter().enumerate() {
+        for (j, s2) in seconds.iter().enumerate() {
+            if a.thorough() || (k + j) % 2 == (a.seed as usize) % 2 {
+                let mut t = f.clone();
+                t.extend(s2.iter());
+                t.push(99);
+                out.emit(parse_event(&t));
+            }
+        }
+    }
     // random texts with non-ASCII and non-SMT characters
     let extra = [0x41u32, 0x22, 0xE9, 0x3A3, 0xFFFD, 0x1F600, 0x2FFFF, 0x30000, 0x10FFFF, 0x20, 0x7F];
     for _ in 0..a.sz(600, 10000) {
